@@ -170,6 +170,27 @@ impl TryFrom<v1::Instance> for Instance {
                 .decision_variables
                 .parse_as(&(), message, "decision_variables")?;
 
+        // Every decision variable ID used in the objective and in (removed) constraints must be defined
+        let check_used_ids = |f: &v1::Function, field: &'static str| -> Result<(), ParseError> {
+            for id in f.used_decision_variable_ids() {
+                as_variable_id(&decision_variables, id).map_err(|e| e.context(message, field))?;
+            }
+            Ok(())
+        };
+        if let Some(f) = &value.objective {
+            check_used_ids(f, "objective")?;
+        }
+        for f in value.constraints.iter().filter_map(|c| c.function.as_ref()) {
+            check_used_ids(f, "constraints")?;
+        }
+        for f in value
+            .removed_constraints
+            .iter()
+            .filter_map(|c| c.constraint.as_ref()?.function.as_ref())
+        {
+            check_used_ids(f, "removed_constraints")?;
+        }
+
         let objective = value
             .objective
             .ok_or(RawParseError::MissingField {
